@@ -168,6 +168,13 @@ func (r *Recorder) Sample(s any) {
 	r.mu.Unlock()
 }
 
+// Samples returns the samples kept so far.
+func (r *Recorder) Samples() []any {
+	r.mu.Lock()
+	defer r.mu.Unlock()
+	return r.samples
+}
+
 // Extra adds a key to the evidence coverage object.
 func (r *Recorder) Extra(k string, v any) {
 	r.mu.Lock()
